@@ -765,12 +765,79 @@ def dec_all(a):
   return [dec(x) for x in a]
 
 
+# ------------------------------------------------------------------ one validator object used by several threads
+SHARED_SPECS = [
+    ('equals-bytes-hex', lambda V, conv: V.Equals(b'0x12', type=conv), [18, b'0x12', 17], [True, False, False]),
+    ('in_range-typed', lambda V, conv: V.InRange('0x10', '0x12', type=conv), [16, 17, 18, 19, 15], [True, True, True, False, False]),
+    ('equals-typed-number', lambda V, conv: V.equals('0x12', type=conv) if False else V.InRange('0x12', '0x12', type=conv), [18, 17], [True, False]),
+]
+
+
+def check_shared_validator(case):
+  """case = {'shared': index, 'plan': {...}}: the measurement declarations of a phase (and their validators) are shared by every
+  test that runs it, so two tests validating at the same time call the SAME validator object; the declared type's converter
+  is a Python function (preemptible).  Every call, in every thread, and a deep copy taken meanwhile decide like the
+  sequential reference."""
+  from vf import vmode  # pylint: disable=g-import-not-at-top
+  from vf import vsched as V_  # pylint: disable=g-import-not-at-top
+  import threading as real_threading  # pylint: disable=g-import-not-at-top
+  r = CaseResult()
+  vmode.setup()
+  from openhtf.util import validators as V  # pylint: disable=g-import-not-at-top
+  V_.monitor_lines(V_.code_objects_of(V.Equals, V.InRange, V.RangeValidatorBase) if hasattr(V, 'RangeValidatorBase') else V_.code_objects_of(V.Equals, V.InRange))
+  name, mk, probes, want = SHARED_SPECS[case['shared']]
+  plan_ = {int(k): v for k, v in (case.get('plan') or {}).items()}
+
+  def fn(s):
+    def conv(x):
+      s.yield_point('converter')      # parsing a spec string takes a while
+      return int(x, 16) if isinstance(x, (str, bytes)) else x
+
+    v = mk(V, conv)
+    out = {}
+
+    def user(i):
+      res = []
+      vv = v if i == 0 else (copy.deepcopy(v) if i == 2 else v)
+      for p in probes:
+        try:
+          res.append(bool(vv(p)))
+        except Exception as e:  # pylint: disable=broad-except
+          res.append('raised ' + type(e).__name__)
+      out[i] = res
+
+    ths = [real_threading.Thread(target=user, args=(i,), name='user%d' % i, daemon=True) for i in range(3)]
+    for t in ths:
+      t.start()
+    for t in ths:
+      t.join()
+    return out
+
+  s = V_.Scheduler(plan=plan_, time_limit=1e4, max_steps=100000)
+  out, exc = s.run(lambda: fn(s), watchdog_s=15.0)
+  if s.failure is not None:
+    raise RuntimeError('scheduler failure %r' % (s.failure,))
+  if exc is not None:
+    raise exc
+  for i in sorted(out):
+    if out[i] != want:
+      r.bad('C07/shared-validator/%s' % ('copy-decides-differently' if i == 2 else 'decides-differently-under-concurrency'),
+            '%s plan=%r: thread %d (%s) decided %r on probes %r, sequentially it decides %r' % (
+                name, case.get('plan'), i, 'deep copy taken meanwhile' if i == 2 else 'same object', out[i], probes, want))
+      break
+  r.nontrivial = bool(s.effective_preemptions)
+  r.classes = ['shared-validator', name, 'preemptions:%d' % min(len(s.effective_preemptions), 3)]
+  return r, s
+
+
 def plan(tier, seed):
   specs = all_specs()
   nshards = 16
   jobs = [{'kind': 'grid', 'name': 'grid%d' % i, 'shard': i, 'nshards': nshards} for i in range(nshards)]
   jobs.append({'kind': 'eqpairs', 'name': 'eqpairs'})
   jobs.append({'kind': 'typed-history', 'name': 'typed-history'})
+  for i in range(len(SHARED_SPECS)):
+    jobs.append({'kind': 'shared-validator', 'name': 'shared-validator%d' % i, 'shared': i})
   n = 1500 if tier == 'quick' else 40000
   for i in range(8 if tier == 'quick' else 16):
     jobs.append({'kind': 'hyp', 'name': 'hyp%d' % i, 'hseed': seed * 1000 + i, 'n': n, 'which': 'range' if i % 2 == 0 else 'percent'})
@@ -794,6 +861,20 @@ def run_job(job, acct):
   elif job['kind'] == 'eqpairs':
     for s1, s2 in eq_pairs():
       check_eq_pair(s1, s2, acct, known)
+  elif job['kind'] == 'shared-validator':
+    base = {'shared': job['shared'], 'plan': {}}
+    r0, s0 = check_shared_validator(base)
+    acct.case(base, r0.nontrivial, r0.classes)
+    for sig, detail in r0.violations:
+      (acct.known if sig in known else acct.violation)(sig, base, detail)
+    for k in range(s0.k + 2):
+      for c in (0, 1, 2):
+        case = dict(base, plan={str(k): c})
+        r, _ = check_shared_validator(case)
+        acct.case(case, r.nontrivial, r.classes)
+        for sig, detail in r.violations:
+          (acct.known if sig in known else acct.violation)(sig, case, detail)
+    acct.exhaustive_parts.append('shared validator %s: every single preemption over %d yield points, 3 threads' % (SHARED_SPECS[job['shared']][0], s0.k + 2))
   elif job['kind'] == 'typed-history':
     for specs in typed_histories():
       check_history(specs, acct, known)
@@ -803,6 +884,8 @@ def run_job(job, acct):
 
 
 def replay(case):
+  if 'shared' in case:
+    return check_shared_validator(case)[0].violations
   if 'typed_history' in case:
     return check_history(case['typed_history'])
   if 'eq_pair' in case:
